@@ -22,6 +22,7 @@ import Pandora.Proofs.C13Multi
 import Pandora.Proofs.C13Jsonline
 import Pandora.Proofs.C13Grpc
 import Pandora.Proofs.C13Cfg
+import Pandora.Proofs.C13Csv
 import Pandora.Bridge.C13
 
 namespace Pandora.Props.C13
@@ -1509,5 +1510,92 @@ example : pluginFromConf id id (fun n => n == [104]) [.str [104]] = .ok () ∧
     pluginFromConf id id (fun n => n == [104]) [.str [104], .str [104]] = .err "toomany" := by decide
 example : csvOpen true [] = .ok 44 ∧ csvOpen true [59, 59] = .ok 59 ∧ csvOpen true [10] = .err "delim" := by decide
 example : Gen.C13Src.csvCommaGuard [59] := by decide
+
+/-! ## round 4 (second part): the rows a csv variable source makes of its file (`vs.readCsv`) -/
+
+/-- "a malformed data source never crashes the process": `readCsv`, for EVERY file (every answer `parse` of `csv.Reader`,
+for every separator), every `fields` list, `ignore_first_line` and `delimiter`; `guarded` = the test in front of `record[i]` -/
+def C13_no_panic_csv_rows_statement (guarded : Bool) : Prop :=
+  ∀ (parse : UInt8 → Option (List (List Bytes))) (ign : Bool) (delimiter : Bytes) (fields : List Bytes),
+    (readCsvModel true guarded parse ign delimiter fields).returns = true
+
+theorem C13_no_panic_csv_rows : C13_no_panic_csv_rows_statement true := by
+  intro parse ign delimiter fields
+  unfold readCsvModel
+  have hopen := csvOpen_returns delimiter
+  cases hc : csvOpen true delimiter with
+  | ok c =>
+    simp only [Res.bind]
+    cases hp : parse c with
+    | none => simp [Res.returns, Res.isPanic, Res.isFatal]
+    | some records =>
+      obtain ⟨rows, h, _⟩ := csvRows_guarded records (fields.map underscored) ign
+      simp [h, Res.returns, Res.isPanic, Res.isFatal]
+  | err e => simp [Res.bind, Res.returns, Res.isPanic, Res.isFatal]
+  | panic w => rw [hc] at hopen; simp [Res.returns, Res.isPanic] at hopen
+  | fatal w => rw [hc] at hopen; simp [Res.returns, Res.isPanic, Res.isFatal] at hopen
+
+/-- without the test the statement is false: a file with one column under a configuration that names two -/
+theorem C13_no_panic_csv_rows_counterexample : ¬ C13_no_panic_csv_rows_statement false := by
+  intro h
+  have := h (fun _ => some [[[97]]]) false [] [[120], [121]]
+  revert this
+  decide
+
+/-- … and so for every record shorter than the list of configured columns -/
+theorem C13_unrepaired_csv_short_record (record fields : List Bytes) (h : record.length < fields.length) :
+    ∃ i, i < fields.length ∧ (csvRowFrom false record (fields.drop i) i).isPanic = true :=
+  ⟨record.length, h, csvRowFrom_unguarded_short record _ _ (by
+    intro hd
+    have := congrArg List.length hd
+    simp at this
+    omega) (Nat.le_refl _)⟩
+
+/-- nothing is dropped and nothing invented: one row per record the reader hands out, but for an ignored first one -/
+theorem C13_csv_rows_complete (records : List (List Bytes)) (fields : List Bytes) (ign : Bool) :
+    ∃ rows, csvRows true records fields ign = .ok rows ∧ rows.length = csvRowCount records.length ign :=
+  csvRows_guarded records fields ign
+
+/-- every row names every configured column (a column the file does not have is the empty string) -/
+theorem C13_csv_rows_columns (records : List (List Bytes)) (fields : List Bytes) (ign : Bool) (hf : fields.length ≠ 0)
+    (rows : List (List (Bytes × Bytes))) (h : csvRows true records fields ign = .ok rows) :
+    ∀ row ∈ rows, row.length = fields.length :=
+  csvRows_row_length records fields ign hf rows h
+
+/-- "never alters how well-formed entries before it are delivered": the rows of the records read first do not depend on
+what follows them -/
+theorem C13_prefix_preserved_csv (good more : List (List Bytes)) (fields : List Bytes) (ign : Bool) :
+    ∃ rows tail, csvRows true good fields ign = .ok rows ∧ csvRows true (good ++ more) fields ign = .ok (rows ++ tail) :=
+  csvRows_append good more fields ign
+
+/-- "is rejected with an error": a file the reader refuses (a quote that is not closed, a record with another number of
+columns, …) makes `readCsv` return that error, whatever was read before; so does a separator the reader refuses -/
+theorem C13_rejected_csv_reader_error (guardedR : Bool) (parse : UInt8 → Option (List (List Bytes))) (ign : Bool)
+    (delimiter : Bytes) (fields : List Bytes) :
+    (∀ c, csvOpen true delimiter = .ok c → parse c = none →
+      readCsvModel true guardedR parse ign delimiter fields = .err "csv") ∧
+    (∀ e, csvOpen true delimiter = .err e → readCsvModel true guardedR parse ign delimiter fields = .err e) := by
+  constructor
+  · intro c hc hp
+    simp [readCsvModel, hc, Res.bind, hp]
+  · intro e he
+    simp [readCsvModel, he, Res.bind]
+
+/-- … about `readCsv` as it stands (regenerated: the conditions under which `record[…]` is evaluated inside the loop over
+the column names, and the index): the index is inside the record, and the cell is read exactly when the record has it -/
+theorem C13_no_panic_csv_rows_source (i recLen : Int) (hi : 0 ≤ i) :
+    (Gen.C13Src.csvRecordGuard i recLen → boundC (Gen.C13Src.csvRecordIndex i recLen) recLen = .ok ()) ∧
+    (Gen.C13Src.csvRecordGuard i recLen ↔ ¬ i ≥ recLen) :=
+  Bridge.C13.csvRecord_bridge i recLen hi
+
+/-- non-vacuity: a header, two records (one column more than configured, one less), `ignore_first_line`, a column without
+a name and one named twice -/
+example : csvRows true [[[104]], [[97], [98], [99]], [[100]]] [[120], [], [120]] true =
+    .ok [[([120], [97]), ([49], [98]), ([120], [99])], [([120], [100]), ([49], []), ([120], [])]] := by decide
+example : csvRows true [[[97, 32, 98], [99]], [[49], [50]]] [] true = .ok [[([97, 95, 98], [49]), ([99], [50])]] := by decide
+example : readCsvModel true true (fun c => if c == 59 then some [[[97], [98]]] else none) false [59] [[120]] = .ok [[([120], [97])]] := by decide
+example : readCsvModel true true (fun _ => none) false [] [[120]] = .err "csv" := by decide
+example : readCsvModel true true (fun _ => some []) true [10] [] = .err "delim" := by decide
+example : Gen.C13Src.csvRecordGuard 0 1 ∧ ¬ Gen.C13Src.csvRecordGuard 1 1 := by decide
 
 end Pandora.Props.C13
